@@ -153,9 +153,15 @@ type Table struct {
 func (t *Table) Init() {
 	t.rs, t.rk, t.rn = map[string]string{}, map[string]string{}, map[float64]int{}
 	for k, v := range t.Strings {
+		if o, dup := t.rs[v]; dup && o != k {
+			panic("table " + t.Name + ": strings " + o + " and " + k + " have the same text")
+		}
 		t.rs[v] = k
 	}
 	for k, v := range t.Keys {
+		if o, dup := t.rk[v]; dup && o != k {
+			panic("table " + t.Name + ": keys " + o + " and " + k + " have the same text")
+		}
 		t.rk[v] = k
 	}
 	for k, v := range t.Numbers {
@@ -312,7 +318,7 @@ func (t *Table) fromFloat(f float64) Node {
 		return Node{"n", i}
 	}
 	g := f * 8
-	if g == math.Trunc(g) && math.Abs(g) < 900000 {
+	if g == math.Trunc(g) && math.Abs(g) < 1e12 {
 		return Node{"n", int(g)}
 	}
 	return Node{"x", strconv.FormatFloat(f, 'g', -1, 64)}
